@@ -46,21 +46,33 @@ RULES = {
 }
 
 
-def design_run(work, verdict):
-    with ThreadPoolExecutor(max_workers=3) as ex:
-        main = ex.submit(tlc_expect_ok, work, "RuleIndexMC", "RuleIndexMC.cfg", workers=4, timeout=900)
+def design_run(work, verdict, full=False):
+    with ThreadPoolExecutor(max_workers=7) as ex:
+        main = ex.submit(tlc_expect_ok, work, "RuleIndexMC", "RuleIndexMC.cfg", workers=2, timeout=900)
         m1 = ex.submit(tlc_expect_violation, work, "RuleIndexMC", "RuleIndexMC_append_changed.cfg", "IndexOrder",
-                       workers=2, timeout=600)
+                       workers=1, timeout=600)
         m2 = ex.submit(tlc_expect_violation, work, "RuleIndexMC", "RuleIndexMC_no_constraint.cfg",
-                       "OwnershipUnique", workers=2, timeout=600)
+                       "OwnershipUnique", workers=1, timeout=600)
+        # the implementation-shaped trie refines the reference semantics on every history
+        trie = ex.submit(tlc_expect_ok, work, "TrieMC", "TrieMC_full.cfg" if full else "TrieMC.cfg", workers=6,
+                         timeout=1800)
+        tm = {m: ex.submit(tlc_expect_violation, work, "TrieMC", "TrieMC_%s.cfg" % m, "Refines", workers=1,
+                           timeout=900) for m in ("catchall_parent", "lost_captures", "stale_keys")}
         r = main.result()
+        t = trie.result()
         refuted = {"append_changed": m1.result().violated, "no_constraint": m2.result().violated}
-    verdict.coverage["states"] = r.distinct
-    verdict.coverage["transitions"] = r.generated
+        refuted.update({"trie_" + m: f.result().violated for m, f in tm.items()})
+    verdict.coverage["states"] = r.distinct + t.distinct
+    verdict.coverage["transitions"] = r.generated + t.generated
     verdict.coverage["design_run"] = {
-        "module": "RuleIndexMC", "distinct_states": r.distinct, "generated": r.generated,
-        "invariants": ["OwnershipUnique", "IndexOrder", "LookupWellDefined", "NoEmptyWildcard"],
-        "negative_controls_refuted": refuted, "wall_s": round(r.wall, 1),
+        "modules": {
+            "RuleIndexMC": {"distinct_states": r.distinct, "generated": r.generated,
+                            "invariants": ["OwnershipUnique", "IndexOrder", "LookupWellDefined", "NoEmptyWildcard"]},
+            "TrieMC": {"distinct_states": t.distinct, "generated": t.generated,
+                       "invariants": ["Refines (Trie!Find = PathMatch!Lookup incl. captures, all histories)",
+                                      "EmptyWhenEmpty"]},
+        },
+        "negative_controls_refuted": refuted, "wall_s": round(max(r.wall, t.wall), 1),
     }
 
 
@@ -152,7 +164,8 @@ def _run_prop(prop, tier, seed, replay, verdict, work, judge, design_run):
         trace = work.path("trace.ndjson")
         base = ["rules", "-profile", profile, "-n", n, "-seed", seed]
         with ThreadPoolExecutor(max_workers=2) as ex:
-            d = ex.submit(design_run, work, verdict)
+            d = ex.submit(design_run, work, verdict) if prop == "C08" else \
+                ex.submit(design_run, work, verdict, tier == "thorough")
             p = ex.submit(run_driver, binary, base + ["-trace", trace])
             d.result()
             log(p.result().strip())
